@@ -174,7 +174,7 @@ func (s *scriptedServer) LabelValues(_ context.Context, r *storepb.LabelValuesRe
 
 // faultPlan is what happens to the Series stream of one store in one execution.
 type faultPlan struct {
-	Mode string // "", "refuse", "fail", "stall"
+	Mode string // "", "refuse", "fail", "stall", "deaf"
 	K    int    // fail / stall when k frames were delivered
 }
 
@@ -374,10 +374,20 @@ func (t *simStream) Recv() (*storepb.SeriesResponse, error) {
 		c.s.Note("%s stalled stream cancelled by the caller", c.st.Name)
 		return nil, c.ctxErr(t.ctx.Err())
 	}
-	if err := c.s.Park(t.ctx, c.s.OpID(c.st.Name, "recv")); err != nil {
+	pctx := t.ctx
+	if t.fault.Mode == "deaf" {
+		// a store that does not notice the caller's cancellation while it produces its next frame (an
+		// in-process store between two Sends, a remote one whose frame is already on the wire): the frame
+		// arrives although the stream was cancelled meanwhile
+		pctx = context.WithoutCancel(t.ctx)
+	}
+	if err := c.s.Park(pctx, c.s.OpID(c.st.Name, "recv")); err != nil {
 		t.rec.Cancelled = true
 		t.done = true
 		return nil, c.ctxErr(err)
+	}
+	if t.fault.Mode == "deaf" && t.ctx.Err() != nil {
+		c.s.X.CountFault("frame-delivered-after-cancellation")
 	}
 	if t.fault.Mode == "fail" && t.k == t.fault.K {
 		t.rec.Faulted = true
